@@ -20,6 +20,7 @@ use std::time::{Duration, Instant};
 pub mod rtp;
 pub mod ice;
 pub mod dtls;
+pub mod sctp;
 
 // ---------------------------------------------------------------------------------------------
 // counting allocator
@@ -222,6 +223,7 @@ pub fn all_targets() -> Vec<Target> {
     v.extend(rtp::targets());
     v.extend(ice::targets());
     v.extend(dtls::targets());
+    v.extend(sctp::targets());
     v
 }
 
@@ -241,6 +243,7 @@ fn replay(case: &str) {
     }
     if !done { done = rtp::replay_special(&mut run, stream, &args); }
     if !done { done = ice::replay_special(&mut run, stream, &args); }
+    if !done { done = sctp::replay_special(&mut run, stream, &args); }
     if !done { println!("unknown stream {stream}"); }
     for f in &run.fails { println!("ORACLE-FAIL {} :: {}", f.signature, f.detail); }
     let _ = std::fs::remove_dir_all("/tmp/c07-replay");
@@ -259,6 +262,7 @@ pub fn run(args: &Args) {
     }
     rtp::special(&mut run, &mut rng.fork(), args.tier_thorough);
     ice::special(&mut run, &mut rng.fork(), args.tier_thorough);
+    sctp::special(&mut run, &mut rng.fork(), args.tier_thorough);
     run.notes.insert("targets".into(), serde_json::json!(targets.iter().map(|t| t.stream).collect::<Vec<_>>()));
     run.notes.insert("type_sizes".into(), rtp::type_sizes());
     run.finish();
